@@ -1,5 +1,6 @@
 import Woodpile.Driver.Util
 import Woodpile.Model.Stream
+import Woodpile.Model.StreamP
 import Woodpile.Gen.Consts
 
 /-!
@@ -135,7 +136,9 @@ def rinit : RSt := ⟨RdState.new, ⟨[], []⟩, none, keepGoingJudge⟩
 
 /-- one call; `none` = panic; the flag says whether it returned `None` or an error -/
 def nextOnce (s : RSt) : Option (RSt × String × Bool) :=
-  let o := next Woodpile.Gen.minBlock prodTuning prod s.judge s.block s.rd s.reader
+  -- `nextP`: `next_record_bytes` with the panic-aware decoder (`Model/StreamP.lean`); equal to
+  -- `next` by `Props/C06U.reader_never_trips_decoder`
+  let o := nextP Woodpile.Gen.minBlock prodTuning prod s.judge s.block s.rd s.reader
   match o.1 with
   | .panic => none
   | res =>
